@@ -991,6 +991,20 @@ func r24Writer(c *RuleCtx) {
 			dropIf = iff
 			dropBlock = b.Succs[0]
 		}
+		// the test written as a predicate of package zap over the bitmap
+		// (`docIsDropped(drops, docNum)`): bool result, Contains on its bitmap parameter
+		if f := predicateCallee(call); f != nil && c.p.InZap(f) && len(f.Blocks) > 0 {
+			for _, cs := range callSites(f) {
+				g := staticCallee(cs)
+				if g == nil || g.Name() != "Contains" || len(cs.Common().Args) == 0 || !isBitmapPtr(cs.Common().Args[0].Type()) {
+					continue
+				}
+				if _, isParam := root(cs.Common().Args[0]).(*ssa.Parameter); isParam {
+					dropIf = iff
+					dropBlock = b.Succs[0]
+				}
+			}
+		}
 	})
 	if dropIf == nil {
 		c.undecidedP(props, "writer/drop-test", c.fpos(fn), "the test `drop bitmap contains this document` is found in mergeStoredAndRemap", "no Contains() branch found")
